@@ -132,9 +132,16 @@ package tq
 // and touch neither the transfer nor local files).
 //@ func (*adapterBase).newHTTPRequest
 //@   assumed
-//@   props C02
+//@   props C02 C18
 //@   modifies fresh
 //@   ensures result1 == nil ==> result0 != nil && result0.Header != nil && isfresh(result0) && isfresh(result0.Header)
+// Checked although the contract is assumed (C18): the request is made with the
+// method asked for, and every header the action offers is put on it through
+// Header.Set - under its canonical name, where the later Get / Del of the
+// transfer path (content type, transfer encoding, authorization) look for it.
+//@   requires @inv a != nil && rel != nil && a.apiClient != nil
+//@   at call http.NewRequest:1 assert @C18 arg0__ == old(method)
+//@   at call (http.Header).Set:1 assert @C18 arg0__ == req.Header && arg1__ == key && arg2__ == value && has(rel.Header, key) && rel.Header[key] == value
 // C18: sending the request for an action - also the repeat after an
 // authentication error - uses the transfer and the request as they are: nothing
 // of the transfer (its authenticated flag, its actions) is changed on the way.
